@@ -42,8 +42,11 @@ VARIANTS = {
     "date": ({"type": "string", "format": "date"}, ["2024-03-01"]),
     "datetime": ({"type": "string", "format": "date-time"}, ["2024-03-01T10:30:00+00:00"]),
     "tsstr": ({"type": "string"}, ["2024-03-01T10:30:00+00:00", "s"]),
+    # every required key is nullable: the variant is still told apart by the PRESENCE of the key
+    "VNullReq": ({"type": "object", "required": ["assignee"], "properties": {"assignee": {"type": "string", "nullable": True}, "eta": {"type": "string"}}},
+                 [{"assignee": None}, {"assignee": "x", "eta": "e"}]),
 }
-OBJECTS = ["VA", "VAB", "VB", "VOpt", "VAC", "VTiger", "VBear"]
+OBJECTS = ["VA", "VAB", "VB", "VOpt", "VAC", "VTiger", "VBear", "VNullReq"]
 BASE_MENU = ["VA", "VAB", "VB", "VOpt", "VAC", "str", "int", "arr", "map"]   # the full permutation space runs over these
 EXTRA_SCHEMAS = {"AnimalBase": {"type": "object", "properties": {"name": {"type": "string"}}},
                  "ClawTraits": {"type": "object", "properties": {"claws": {"type": "integer"}}}}
@@ -87,12 +90,15 @@ def unions(tier):
             for disc in ("mapping", "implicit"):
                 out.append({"variants": list(sel), "disc": disc, "nullable": False, "kw": "oneOf", "prop": prop})
     # (appended last: the packs of the unions above stay as they are, and with them the recorded witness keys)
-    for group in (["VTiger", "VBear", "VB"], ["date", "datetime", "tsstr"], ["date", "datetime", "int"]):
+    for group in (["VTiger", "VBear", "VB"], ["date", "datetime", "tsstr"], ["date", "datetime", "int"], ["VNullReq", "VB", "VAC"]):
         for k in (2, 3):
             for sel in itertools.permutations(group, k):
                 out.append({"variants": list(sel), "disc": "none", "nullable": False, "kw": "oneOf"})
                 if k == 2:
                     out.append({"variants": list(sel), "disc": "none", "nullable": False, "kw": "anyOf"})
+    # one object holding the SAME variants in both orders (first: oneOf[X, Y], second: oneOf[Y, X]): each property follows its own order
+    for sel in itertools.permutations(["VA", "VAB", "VAC", "VB"], 2):
+        out.append({"variants": list(sel), "disc": "none", "nullable": False, "kw": "oneOf", "rev": True})
     return out
 
 
@@ -106,7 +112,7 @@ def cases(tier, seed):
 
 def describe(u):
     return (f"{u['kw']}[{','.join(u['variants'])}]" + (f" disc={u['disc']}" if u["disc"] != "none" else "") + (" nullable" if u["nullable"] else "")
-            + (f" prop={u['prop']}" if u.get("prop") else "") + (f" name={u['uname']}" if u.get("uname") else ""))
+            + (f" prop={u['prop']}" if u.get("prop") else "") + (f" name={u['uname']}" if u.get("uname") else "") + (" +reversed" if u.get("rev") else ""))
 
 
 def build_doc(us):
@@ -140,6 +146,9 @@ def build_doc(us):
         un = u.get("uname") or f"U{i}"
         schemas[un] = s
         schemas[f"Holder{i}"] = {"type": "object", "properties": {"u": R(un), "us": {"type": "array", "items": R(un)}}}
+        if u.get("rev"):
+            schemas[f"{un}R"] = {u["kw"]: list(reversed(members))}
+            schemas[f"PairHolder{i}"] = {"type": "object", "required": ["first", "second"], "properties": {"first": R(un), "second": R(f"{un}R")}}
     return {"openapi": "3.0.3", "info": {"title": "U", "version": "1"}, "paths": {}, "components": {"schemas": schemas}}
 
 
@@ -193,6 +202,8 @@ def run_pack(us, stats):
             ps = payloads(u, i)
             jobs.append({"id": [i, "alias"], "class": f"U{i}", "docs": [p for _, p, _ in ps]})
             jobs.append({"id": [i, "field"], "class": f"Holder{i}", "docs": [{"u": p} for _, p, _ in ps]})
+            if u.get("rev"):
+                jobs.append({"id": [i, "pair"], "class": f"PairHolder{i}", "docs": [{"first": p, "second": p} for _, p, _ in ps]})
             jobs.append({"id": [i, "item"], "class": f"Holder{i}", "docs": [{"us": [p]} for _, p, _ in ps] + [{"us": [p for _, p, e in ps if not e.get("error")]}]})
         res = sandbox.zygote_job({"roots": [root], "allow": ["cli"], "driver": "roundtrip",
                                   "args": {"package": "cli", "core": "cli.core", "jobs": jobs}}, timeout_s=100)
@@ -231,7 +242,7 @@ def run_case(case):
         if r["status"] != "ok":
             continue
         ps = payloads(u, r["index"])
-        for pos in ("alias", "field", "item"):
+        for pos in ("alias", "field", "item") + (("pair",) if u.get("rev") else ()):
             rec = r["recs"].get(pos)
             if rec is None or rec.get("missing"):
                 sig = f"C14|{pos}|union not exported by the models package"
@@ -267,8 +278,15 @@ def run_case(case):
                     add(f"conforming payload rejected [{shape(u)}]: {err['type']}: {m[:70]}", err["msg"][:200])
                     continue
                 back = d["back"]
-                wrap = (lambda x: x) if pos == "alias" else ((lambda x: {"u": x}) if pos == "field" else (lambda x: {"us": [x]}))
+                wrap = {"alias": lambda x: x, "field": lambda x: {"u": x}, "item": lambda x: {"us": [x]}, "pair": lambda x: {"first": x, "second": x}}[pos]
                 want = wrap(p)
+                if pos == "pair":
+                    # each property is judged on its own (it follows its own variant order)
+                    for side in ("first", "second"):
+                        if not keeps((back or {}).get(side), p):
+                            add(f"payload keys/values lost after decode->encode [{shape(u)}]",
+                                f"{side}: {json.dumps(p)[:100]} came back as {json.dumps((back or {}).get(side))[:120]}", key=f"{key}|{side}")
+                    continue
                 # keys of the payload must survive
                 if not keeps(back, want):
                     add(f"payload keys/values lost after decode->encode [{shape(u)}]", f"{json.dumps(want)[:120]} came back as {json.dumps(back)[:160]}")
